@@ -34,7 +34,8 @@ Family `layout` (D only, see _layout_case): the attribute list of a class is edi
 are paired with the attributes in their current order, keywords address the current attribute of that name.
 
 Family `falsy` (D only, see _falsy_case): generators that yield falsy ids; peek returns the pending value whatever it is and
-never reads from readfunc, next hands out the values in order without skipping any.
+the following next returns that same value, next hands out the values in readfunc's order without skipping any (when readfunc is
+called - read-ahead or on demand - is not demanded).
 
 Families `override` and `kwnames` (D only, see _override_case / _kwnames_case): a generator overriding next() is what every
 drawing route uses; a keyword named like an internal parameter of the library sets the attribute of that name.
@@ -68,8 +69,8 @@ RULE = ('(1) exhaustive: every interleaving of peek / next of length <= 9 (quick
         'and replacements that keep the number of attributes, then positional and keyword creations (arguments follow the CURRENT '
         'order); '
         '(8) falsy ids (D only): IdGenerator subclasses whose readfunc yields 0, \'\', 0.0, False, () among ordinary values (zero-based '
-        'counter, negative start, mixed), 2-10 peek / next / next() / next(iter()) calls: peek returns the pending value and reads '
-        'nothing, next hands out every value in order; '
+        'counter, negative start, mixed), 2-10 peek / next / next() / next(iter()) calls: peek returns the pending value, the next '
+        'next returns it, every value is handed out in order; '
         '(9) generators that OVERRIDE next() (D only: offset, skip, record): ids of new instances and gen.next() / next(gen) / '
         'gen.__next__() / next(iter(gen)) all yield the override\'s sequence; (10) attribute names equal to plausible internal '
         'parameter names (inst, args, kwargs, metaclass, cls, name, value, key, m, ...) supplied by keyword through all three '
@@ -420,7 +421,7 @@ def _falsy_case(r):
     return {'gen': 'user', 'start': 1, 'step': 1, 'fam': 'falsy', 'kind_of_sequence': kind, 'seq': seq, 'ops': [[o] for o in ops]}
 
 
-INTERNAL_NAMES = ['inst', 'args', 'kwargs', 'metaclass', 'cls', 'name', 'value', 'attr', 'key', 'm', 'metamodel', 'kind',
+INTERNAL_NAMES = ['self', 'inst', 'args', 'kwargs', 'metaclass', 'cls', 'name', 'value', 'attr', 'key', 'm', 'metamodel', 'kind',
                   'attributes', 'ty', 'type_name', 'instance', 'other', 'link', 'names', 'lookup', 'default']
 
 
@@ -438,8 +439,8 @@ def _override_case(r):
 def _kwnames_case(r):
     """D-only family `kwnames`: attributes whose names are plausible INTERNAL parameter / variable names of the library (inst,
     args, kwargs, metaclass, cls, name, value, attr, key, m, metamodel, kind, ...), supplied by keyword through MetaModel.new,
-    MetaClass.new and MetaClass.__call__: the keyword sets the attribute, whatever it is called.  (`self` through any route and
-    `kind` through MetaModel.new(kind, ...) collide with the PUBLIC signatures and are not generated.)"""
+    MetaClass.new and MetaClass.__call__: the keyword sets the attribute, whatever it is called - `self` and `kind` included (the receivers of new /
+    __call__ are positional-only since fix f67e417)."""
     names = r.sample(INTERNAL_NAMES, r.randint(2, 5))
     attrs = [[nm if r.random() < 0.7 else nm.capitalize(), respell(r, r.choice(['INTEGER', 'STRING']))] for nm in names]
     ops = []
@@ -449,8 +450,6 @@ def _kwnames_case(r):
         for a, t in attrs:
             if r.random() < 0.6:
                 sp = r.choice([a, a.lower(), a.lower(), respell(r, a)])
-                if route == 'm' and sp == 'kind':
-                    continue
                 if sp not in [k for k, _ in kws]:
                     kws.append([sp, r.randint(1, 99) if t.upper() == 'INTEGER' else 'v%d' % r.randint(1, 99)])
         ops.append(['new', route, kws])
@@ -865,7 +864,6 @@ def _run_falsy(case):
         return a == b and type(a) is type(b)
     for n, (op,) in enumerate(case['ops']):
         want = seq[handed] if handed < len(seq) else 1000 + handed
-        reads_before = g.pos
         if op == 'peek':
             v = g.peek()
             if not want:
@@ -873,16 +871,13 @@ def _run_falsy(case):
             if not same(v, want):
                 fails.append({'sig': 'peek-value', 'what': 'peek returned %r, the pending value is %r (readfunc yields %r ...); history %r'
                               % (v, want, seq[:handed + 3], case['ops'][:n + 1])})
-            if g.pos != reads_before:
-                fails.append({'sig': 'peek-advances', 'what': 'peek read %d more value(s) from readfunc (pending value %r); history %r'
-                              % (g.pos - reads_before, want, case['ops'][:n + 1])})
+            # (WHEN readfunc is called is the implementation's business - read-ahead or on demand -: "peeking never advances" is
+            # about the VALUES: the peeked value is what the following next returns, repeated peeks agree, nothing is skipped)
         else:
             v = next(g) if op == 'next' else (g.next() if op == 'next2' else next(iter(g)))
             if not same(v, want):
                 fails.append({'sig': 'id-sequence', 'what': 'next returned %r as value number %d, readfunc produced %r there (sequence %r ...); '
                               'history %r' % (v, handed + 1, want, seq[:handed + 3], case['ops'][:n + 1])})
-            if g.pos != reads_before + 1:
-                fails.append({'sig': 'id-sequence', 'what': 'next read %d values from readfunc; history %r' % (g.pos - reads_before, case['ops'][:n + 1])})
             handed += 1
         if len(fails) >= 3:
             break
